@@ -213,7 +213,18 @@ MUST_BE_FREE = (
 def expand_effect_check(eng, tier, seed):
     from pyvc.effects import check_expand
 
-    out = check_expand(eng.repo, EXPAND_MODULES, EXPANDERS, MUST_BE_FREE)
+    # functions whose EXPAND-freedom is part of the baseline: a helper that is not in the ledger (introduced by a
+    # refactoring) may be an inferred expander, a baseline function may not
+    import json
+    import os
+
+    baseline = set()
+    lp = os.path.join(os.path.dirname(os.path.dirname(os.path.abspath(__file__))), "ledger", "C16.json")
+    if os.path.exists(lp):
+        for n in json.load(open(lp))["obligation_names"]:
+            if n.endswith("/effect#expand-free"):
+                baseline.add("pydsdl." + n[: -len("/effect#expand-free")])
+    out = check_expand(eng.repo, EXPAND_MODULES, EXPANDERS, MUST_BE_FREE, baseline_free=baseline)
     out["declared_expanders"] = EXPANDERS
     return out
 
